@@ -248,6 +248,10 @@ func (d *Descriptor) readAsSlice(out Outputter, data []byte) (n int, err error) 
 			if err != nil {
 				return 0, err
 			}
+			if n <= 0 {
+				// A truncated varint reads as zero bytes consumed
+				return 0, fmt.Errorf("corrupt data in packed slice")
+			}
 			offset += n
 		}
 		return offset, nil
